@@ -60,7 +60,7 @@ class ModelGap(AttributeError):
 
 
 PROXY_NAMES = ("SBit", "SInt", "SLin", "SNeg", "SDiff", "SBits", "SBytes", "SByteArray", "SArray", "SymMember", "SymList", "SymSeq", "SymDict", "SFun", "SZInt", "SZInv",
-               "SArith", "SBinStr", "LazyBin", "SNd", "NumpyFacade", "s_int", "s_bytes", "ZBytes", "KBytes", "StructFacade")
+               "SArith", "SBinStr", "LazyBin", "SNd", "NumpyFacade", "s_int", "s_bytes", "ZBytes", "KBytes", "StructFacade", "SDyadic")
 
 
 def is_model_gap(e):
